@@ -53,6 +53,33 @@ def case(cfg, trims):
     ev = s.evidence()
     if not isinstance(ev, tuple) or abs(float(ev[0]) - float(lz)) > 1e-8 * (1 + abs(float(lz))):
         bad.append(("post-evidence", f"evidence()={ev!r} but the MIS evidence recomputed from the stored history at beta=1 is {float(lz)!r}"))
+    # re-opening a finished run: run(save_every) wrote <label>_final.state; a fresh sampler resumes from it with the target met
+    if c.get("reopen"):
+        import os, shutil
+        from tvf.checks.c08 import tmpdir
+        tmp = tmpdir()
+        try:
+            c2 = dict(c, output_dir=tmp, output_label="fin")
+            np.random.seed(c["seed"])
+            sA = runs.build(c2)[0]
+            sA.run(n_total=c["n_total"], progress=False, save_every=3)
+            fin = os.path.join(tmp, "fin_final.state")
+            if os.path.exists(fin):
+                sB = runs.build(c2)[0]
+                sB.run(n_total=c["n_total"], progress=False, resume_state_path=fin)
+                HB = runs.history(sB)
+                _, _, lzB, essB = mis_ref(HB["logl"], HB["beta"], HB["logz"], 1.0)
+                evB = float(sB.evidence()[0])
+                out["reopened"] = 1
+                if abs(evB - float(lzB)) > 1e-8 * (1 + abs(float(lzB))):
+                    bad.append(("post-evidence", f"after run(resume_state_path=<final checkpoint>) with the target already met, evidence()={evB!r} but the MIS "
+                                f"evidence recomputed from the stored history is {float(lzB)!r}"))
+                if float(essB) < c["n_total"] * (1 - 1e-9) or abs(1 - float(sB.state.get_current("beta"))) >= 1e-4:
+                    bad.append(("post-ess", "re-opened finished run violates the beta/ESS postconditions"))
+        except Exception as e:
+            bad.append(("run-raises", f"re-opening a finished run raised {type(e).__name__}: {e}"))
+        finally:
+            shutil.rmtree(tmp, ignore_errors=True)
     # reference log-weight per particle content
     xflat = np.concatenate(H["x"])
     ref_lw = {}
@@ -129,7 +156,7 @@ def run():
     trims = TRIMS[:5] if ck.quick else TRIMS
     ck.tables["pairwise_coverage"] = cover.coverage(rows, FACTORS, 2)
     ck.tables["threeway_coverage"] = cover.coverage(rows, FACTORS, 3)
-    tasks = [("tvf.checks.c12:case", dict(cfg=to_cfg(r, ck.subseed("cfg", i)), trims=trims), None) for i, r in enumerate(rows)]
+    tasks = [("tvf.checks.c12:case", dict(cfg=dict(to_cfg(r, ck.subseed("cfg", i)), reopen=(i % 2 == 0)), trims=trims), None) for i, r in enumerate(rows)]
     for i, st, val in farm.run(tasks, timeout=900, progress="C12"):
         cfg = tasks[i][1]["cfg"]
         if st == "timeout":
@@ -141,6 +168,7 @@ def run():
         ck.case(dict(cfg=cfg), nontrivial=val["combos"] > 0)
         ck.event("completed runs with postconditions checked")
         ck.event("posterior() option combinations called", val["combos"])
+        ck.event("finished runs re-opened from their final checkpoint", val.get("reopened", 0))
         ck.event("posterior rows identified through the evaluation log", val["rows"])
         seen = set()
         for key, what in val["bad"]:
